@@ -24,3 +24,8 @@ Lemma geneq_directed : gen_distances_from_prediction_border_to_reference_border 
 Proof. split; reflexivity. Qed.
 Lemma geneq_symmetric_mean : gen_assd_is_mean_of_both_directions = true.
 Proof. reflexivity. Qed.
+
+(* a distance is the square root of the summed squared offsets to the nearest reference border voxel, computed on the whole array in
+   one piece: Model.Assd's exact squared distances (the square root is taken by the harness with 50 digits) *)
+Lemma geneq_distance : gen_distance_is_sqrt_of_summed_squared_offsets = true.
+Proof. reflexivity. Qed.
